@@ -6,8 +6,9 @@ CONSTANTS NV = 3
  Bytes = {44}
  CharSet = {97}
  AttLens = {1, 2}
+ ResizeSet = {0, 1, 4}
  CapSet = {0, 4}
  Orig = FALSE
- Skip = {"reserve", "assignlit", "appendc", "cstrm", "lower", "trim", "printf", "prependb", "appendb"}
+ Skip = {"reserve", "assignlit", "appendc", "cstrm", "lower", "trim", "printf", "compare", "prependb", "appendb", "resize"}
 INVARIANTS RefCountOK NoDangling NoErr TempsDead CapOK RefinementOK ExtUntouched CStrOK
 PROPERTY IndepStep
